@@ -352,7 +352,7 @@ fn main() {
                 let mut c = Case::new("dev", "findcastle", 0, case::Mode::Direct);
                 c.params.max_polls = 100_000;
                 c.params.max_steps = 400_000;
-                c.items.push(case::DItem { root: root.to_string(), moves: pre.clone(), depth: Some(d), stop_at: None, fresh: true, isolated: false, sweep: None, descend: None, walks: None });
+                c.items.push(case::DItem { root: root.to_string(), moves: pre.clone(), depth: Some(d), stop_at: None, pre_stopped: false, fresh: true, isolated: false, sweep: None, descend: None, walks: None });
                 let out = exec::run_case(&c);
                 let an = oracle::analyse(&c, &out);
                 if let Some(g) = an.gos.first() {
